@@ -198,19 +198,30 @@ class Driver:
         self.p = subprocess.Popen([str(exe)], stdin=subprocess.PIPE, stdout=subprocess.PIPE, text=True, bufsize=1 << 20)
 
     def ask_many(self, lines: list[str]) -> list[str]:
+        """send all requests from a writer thread while reading the answers (no pipe deadlock whatever the sizes)"""
         if not lines:
             return []
+        import threading
+
+        def writer():
+            try:
+                for i in range(0, len(lines), 500):
+                    self.p.stdin.write("\n".join(lines[i:i + 500]) + "\n")
+                self.p.stdin.flush()
+            except Exception:
+                pass
+        for l in lines:
+            if "\n" in l:
+                raise Infra("newline inside a driver request")
+        t = threading.Thread(target=writer, daemon=True)
+        t.start()
         out = []
-        CH = 2000
-        for i in range(0, len(lines), CH):
-            chunk = lines[i:i + CH]
-            self.p.stdin.write("\n".join(chunk) + "\n")
-            self.p.stdin.flush()
-            for _ in chunk:
-                l = self.p.stdout.readline()
-                if not l:
-                    raise Infra("lean driver died")
-                out.append(l.rstrip("\n"))
+        for _ in lines:
+            l = self.p.stdout.readline()
+            if not l:
+                raise Infra("lean driver died")
+            out.append(l.rstrip("\n"))
+        t.join()
         return out
 
     def ask(self, line: str) -> str:
